@@ -30,6 +30,7 @@ pub fn dispatch(cmd: &str, c: &Value) -> Value {
         "details_batches" => details_batches(c),
         "pipeline" => pipeline(c),
         "seg_history" => seg_history(c),
+        "pipeline_dump" => pipeline_dump(c),
         "varint" => varint(c),
         "collvarint" => collvarint(c),
         "stream_names" => stream_names(c),
@@ -755,6 +756,40 @@ pub fn pipeline(c: &Value) -> Value {
     }
     json!({ "ok": distinct.len() == 1, "distinct_archives": distinct.len(), "sizes": distinct.iter().map(|d| d.len()).collect::<Vec<_>>(),
             "why": if distinct.len() == 1 { String::new() } else { format!("{} distinct archives over {} runs with {} worker(s) + 1 run with one worker", distinct.len(), runs, threads) } })
+}
+
+/// Translator validation of the pipeline instances: one real run (given driver / thread count / config); the full descriptor table
+/// (group id, in-group id, orientation, raw length of every segment of every contig) and the extracted contigs are returned, to be
+/// compared with what the engine's run of the same real code produced.
+pub fn pipeline_dump(c: &Value) -> Value {
+    use ragc_core::{Decompressor, DecompressorConfig, StreamingQueueCompressor, StreamingQueueConfig};
+    let threads = c["threads"].as_u64().unwrap() as usize;
+    let k = c["k"].as_u64().unwrap() as usize;
+    let driver = c["driver"].as_str().unwrap_or("api").to_string();
+    let samples: Vec<(String, Vec<(String, Vec<u8>)>)> = c["samples"].as_array().unwrap().iter().map(|s| {
+        (s[0].as_str().unwrap().to_string(), s[1].as_array().unwrap().iter().map(|ct| (ct[0].as_str().unwrap().to_string(), bytes(&ct[1]))).collect())
+    }).collect();
+    let splitters: ahash::AHashSet<u64> = c["splitters"].as_array().unwrap().iter().map(u64_of).collect();
+    let mut cfg = StreamingQueueConfig { k, segment_size: 4, min_match_len: 4, num_threads: threads, queue_capacity: c["qcap"].as_u64().unwrap_or(1 << 20) as usize, verbosity: 0, ..StreamingQueueConfig::default() };
+    if let Some(v) = c["cfg"].get("pack_size").and_then(|x| x.as_u64()) { cfg.pack_size = v as usize; }
+    if driver == "single" { cfg.concatenated_genomes = true; }
+    let path = tmp_path("pipedump");
+    let r = (|| -> anyhow::Result<()> {
+        let mut comp = StreamingQueueCompressor::with_splitters(&path, cfg, splitters)?;
+        for (si, (sn, contigs)) in samples.iter().enumerate() {
+            if si == 1 && driver == "single" { comp.drain()?; }
+            for (cn, d) in contigs { comp.push(sn.clone(), cn.clone(), d.clone())?; }
+            if si == 0 && driver == "multi" { comp.drain()?; comp.sync_and_flush("AAA#0_REF")?; }
+        }
+        comp.finalize()
+    })();
+    if let Err(e) = r { return json!({"error": format!("{:#}", e)}); }
+    let mut dec = Decompressor::open(path.to_str().unwrap(), DecompressorConfig { verbosity: 0 }).unwrap();
+    let table: Vec<Value> = dec.get_all_segments().unwrap().into_iter().map(|(s, ct, segs)| json!([s, ct, segs.iter().map(|d| json!([d.group_id, d.in_group_id, d.is_rev_comp, d.raw_length])).collect::<Vec<_>>()])).collect();
+    let mut out = vec![];
+    for sn in dec.list_samples() { out.push(json!([sn.clone(), dec.get_sample(&sn).unwrap().into_iter().map(|(n, d)| json!([n, d])).collect::<Vec<_>>()])); }
+    let _ = std::fs::remove_file(&path);
+    json!({ "segments": table, "samples": out })
 }
 
 /// C08 segment level: a real archive (multi-file driving, one worker), then the given history of reader operations on ONE handle,
